@@ -435,4 +435,167 @@ theorem interpField_good (fac : Factory) (m arch : Nat) (fd : FieldDef) (b : Lis
       · have hs' : ¬ fd.bt = 7 := hs
         simpa [hs'] using hro
 
+/-! ### a decoded developer field -/
+
+/-- what the re-encoding direction needs of a decoded developer field: whatever field description the VALIDATOR resolves
+for it, if the value aligns with that description's base type (which acceptance guarantees) it is fine under the flags the
+decoder will read it with -/
+structure DevGood (d : DDev) : Prop where
+  num : d.num < 256
+  idx : d.idx < 256
+  wf : wf d.value = true
+  nz : kfZeroV d.value = false
+  nf : kfFFFDV d.value = false
+  na : ∀ bt', align d.value bt' = true →
+    kfArrV (devReadAs bt' d.value).1 (devReadAs bt' d.value).2.1 (devReadAs bt' d.value).2.2 d.value = false
+  nv : ∀ bt', align d.value bt' = true → kfPiecesD d = false →
+    normalValue (devReadAs bt' d.value).1 (devReadAs bt' d.value).2.1 (devReadAs bt' d.value).2.2 d.value = d.value
+
+theorem devReadAs_num (bt' : Nat) (v : Value) (hn : NumBt bt') : devReadAs bt' v = (bt', false, inferArray bt' v) := by
+  simp only [devReadAs, numBt_notBool bt' hn.1]
+
+theorem devReadAs_str (v : Value) : devReadAs btString v = (btString, false, inferArray btString v) := by
+  simp only [devReadAs]; congr 1
+
+theorem dev_good (num idx size bt0 : Nat) (arrS : Bool) (v : Value) (hnum : num < 256) (hidx : idx < 256)
+    (hbt : btValid bt0 = true)
+    (hc : (size < btSize bt0 ∧ NumBt bt0 ∧ ∃ x, v = scalarOf bt0 false x ∧ x < 256 ^ btSize bt0) ∨
+      (btSize bt0 ≤ size ∧ ReadOK size bt0 false
+        (if bt0 = btString then arrS else decide (size > btSize bt0 ∧ size % btSize bt0 = 0)) v)) :
+    DevGood ⟨num, idx, v⟩ := by
+  -- one number
+  have scal : ∀ x, NumBt bt0 → x < 256 ^ btSize bt0 → v = scalarOf bt0 false x → DevGood ⟨num, idx, v⟩ := by
+    intro x hn hlt hv
+    subst hv
+    have hf := fine_scalarOf bt0 hn false x hlt
+    refine ⟨hnum, hidx, hf.wf, hf.nz, hf.nf, ?_, ?_⟩
+    · intro bt' hal
+      obtain ⟨hn', hsz, he⟩ := scalarOf_align bt0 hn x bt' hal
+      show kfArrV (devReadAs bt' (scalarOf bt0 false x)).1 _ _ (scalarOf bt0 false x) = false
+      rw [devReadAs_num bt' _ hn', ← he, inferArray_scalarOf bt' hn']
+      exact (fine_scalarOf bt' hn' false x (by rw [hsz]; exact hlt)).na
+    · intro bt' hal _
+      obtain ⟨hn', hsz, he⟩ := scalarOf_align bt0 hn x bt' hal
+      show normalValue (devReadAs bt' (scalarOf bt0 false x)).1 _ _ (scalarOf bt0 false x) = _
+      rw [devReadAs_num bt' _ hn', ← he, inferArray_scalarOf bt' hn']
+      exact (fine_scalarOf bt' hn' false x (by rw [hsz]; exact hlt)).nv
+  rcases hc with ⟨_, hn, x, hx, hlt⟩ | ⟨hge, hro⟩
+  · exact scal x hn hlt hx
+  · by_cases hs : bt0 = btString
+    · subst hs
+      simp only [if_true] at hro
+      rcases hro with ⟨hn, _⟩ | ⟨_, ⟨harr, vs, hv, hg⟩ | ⟨harr, s0, hv, hg⟩⟩
+      · exact absurd rfl hn.2
+      · subst hv
+        have hia := inferArray_strings vs hg
+        have hb := strings_basic vs hg false (decide (2 ≤ vs.length)) (by
+          by_cases h2 : 2 ≤ vs.length
+          · exact Or.inl (by simp [h2])
+          · exact Or.inr (by omega))
+        refine ⟨hnum, hidx, hb.1, hb.2.1, hb.2.2.2, ?_, ?_⟩
+        · intro bt' hal
+          have : bt' = btString := by simpa [align] using hal
+          subst this
+          show kfArrV (devReadAs btString (.sliceString vs)).1 _ _ (.sliceString vs) = false
+          rw [devReadAs_str, hia]; exact hb.2.2.1
+        · intro bt' hal hp
+          have : bt' = btString := by simpa [align] using hal
+          subst this
+          have h2 : 2 ≤ vs.length := by
+            simp [kfPiecesD, shortStrs] at hp
+            exact hp
+          show normalValue (devReadAs btString (.sliceString vs)).1 _ _ (.sliceString vs) = _
+          rw [devReadAs_str, hia]
+          simp only [h2, decide_true]
+          exact (fine_strings vs hg false).nv
+      · subst hv
+        have hf := fine_string s0 hg false
+        have hia := inferArray_string s0 hg
+        refine ⟨hnum, hidx, hf.wf, hf.nz, hf.nf, ?_, ?_⟩
+        · intro bt' hal
+          have : bt' = btString := by simpa [align] using hal
+          subst this
+          show kfArrV (devReadAs btString (.string s0)).1 _ _ (.string s0) = false
+          rw [devReadAs_str, hia]; exact hf.na
+        · intro bt' hal _
+          have : bt' = btString := by simpa [align] using hal
+          subst this
+          show normalValue (devReadAs btString (.string s0)).1 _ _ (.string s0) = _
+          rw [devReadAs_str, hia]; exact hf.nv
+    · have hn : NumBt bt0 := ⟨hbt, hs⟩
+      have hw := btSize_pos bt0 hbt
+      simp only [hs, if_false] at hro
+      rcases hro with ⟨_, ⟨harr, xs, hv, hlt, hne, hlen⟩ | ⟨harr, x, hv, hlt⟩⟩ | ⟨hs', _⟩
+      · subst hv
+        have h2 : 2 ≤ xs.length := by
+          simp only [decide_eq_true_eq] at harr
+          rw [hlen]
+          apply (Nat.le_div_iff_mul_le hw).mpr
+          have := Nat.div_add_mod size (btSize bt0)
+          rw [harr.2] at this
+          rcases Nat.lt_or_ge (size / btSize bt0) 2 with h | h
+          · have : btSize bt0 * (size / btSize bt0) ≤ btSize bt0 * 1 := Nat.mul_le_mul_left _ (by omega)
+            omega
+          · have : btSize bt0 * 2 ≤ btSize bt0 * (size / btSize bt0) := Nat.mul_le_mul_left _ h
+            omega
+        have hf := fine_sliceOf bt0 hn false xs hlt hne
+        refine ⟨hnum, hidx, hf.wf, hf.nz, hf.nf, ?_, ?_⟩
+        · intro bt' hal
+          obtain ⟨hn', hsz, he⟩ := sliceOf_align bt0 hn xs bt' hal
+          show kfArrV (devReadAs bt' (sliceOf bt0 false xs)).1 _ _ (sliceOf bt0 false xs) = false
+          rw [devReadAs_num bt' _ hn', ← he, inferArray_sliceOf bt' hn']
+          simp only [h2, decide_true]
+          exact (fine_sliceOf bt' hn' false xs (by rw [hsz]; exact hlt) hne).na
+        · intro bt' hal _
+          obtain ⟨hn', hsz, he⟩ := sliceOf_align bt0 hn xs bt' hal
+          show normalValue (devReadAs bt' (sliceOf bt0 false xs)).1 _ _ (sliceOf bt0 false xs) = _
+          rw [devReadAs_num bt' _ hn', ← he, inferArray_sliceOf bt' hn']
+          simp only [h2, decide_true]
+          exact (fine_sliceOf bt' hn' false xs (by rw [hsz]; exact hlt) hne).nv
+      · exact scal x hn hlt hv
+      · exact absurd hs' hs
+
+/-- **every developer field `decodeDeveloperFields` returns is good**, whatever the bytes and whatever field description
+it was read under -/
+theorem interpDev_good (arch : Nat) (dd : DevDef) (fdsc : Desc) (b : List Nat) (d : DDev)
+    (hb : Bytes b) (hlen : b.length = dd.size) (hnum : dd.num < 256) (hidx : dd.idx < 256)
+    (h : interpDev arch dd fdsc b = .ok (some d)) : DevGood d := by
+  unfold interpDev at h
+  have hv : btValid fdsc.bt = true := by
+    cases hvv : validBaseType fdsc.bt with
+    | true => exact hvv
+    | false => simp [hvv] at h
+  have hvb : validBaseType fdsc.bt = true := hv
+  simp only [hvb, Bool.not_true, Bool.false_eq_true, if_false] at h
+  obtain ⟨arr, harr, h⟩ := Res.bind_ok h
+  have hsz : dd.size ≠ 0 := by
+    intro h0; rw [if_pos h0] at h; cases h
+  rw [if_neg hsz] at h
+  obtain ⟨v0, hval, h⟩ := Res.bind_ok h
+  simp only [Res.ok.injEq, Option.some.injEq] at h
+  have hw := btSize_pos fdsc.bt hv
+  have harr' : arr = decide (dd.size > btSize fdsc.bt ∧ dd.size % btSize fdsc.bt = 0) := by
+    by_cases hgt : dd.size > btSize fdsc.bt
+    · simp only [hgt, if_true, modP, show ¬ btSize fdsc.bt = 0 from by omega, if_false, Res.bind, Res.ok.injEq] at harr
+      rw [← harr]; simp [hgt]
+    · simp only [hgt, if_false, Res.ok.injEq] at harr
+      rw [← harr]; simp [hgt]
+  have hpb : decide (fdsc.bt &&& baseTypeNumMask = profileBool) = false := numBt_notBool fdsc.bt hv
+  rw [hpb] at hval h
+  have hrv : readValueOf b arch dd.size fdsc.bt false arr (decide (fdsc.bt = btString)) = .ok
+      (if (readShape dd.size fdsc.bt false arr).1 ≠ fdsc.bt then convertBytesToValue (sliceUint8Of v0) arch fdsc.bt else v0) := by
+    unfold readValueOf
+    rw [hval]; rfl
+  have hcore := read_core b arch dd.size fdsc.bt false arr _ _ hb hlen hsz hrv
+  rw [← h]
+  refine dev_good dd.num dd.idx dd.size fdsc.bt (decide (strcount b > 1)) _ hnum hidx hv ?_
+  rcases hcore with hu | ⟨hge, hro⟩
+  · exact Or.inl hu
+  · refine Or.inr ⟨hge, ?_⟩
+    rw [← harr']
+    by_cases hs : fdsc.bt = btString
+    · simpa [hs] using hro
+    · have hs' : ¬ fdsc.bt = 7 := hs
+      simpa [hs'] using hro
+
 end Fit.E2E
